@@ -88,7 +88,12 @@ pub fn harden_uni(c: &UniCase) -> Vec<(String, UniCase)> {
     // one more interfering task
     // (the third one: a late deadline and a short non-preemptive region — a potential blocker
     // that must not lower the blocking term of the others)
-    for extra in [ts(5, 0, 1, 4, 1, 1), ts(3, 2, 2, 9, 1, 2), ts(9, 0, 1, 40, 1, 1)] {
+    let mut extras = vec![ts(5, 0, 1, 4, 1, 1), ts(3, 2, 2, 9, 1, 2), ts(9, 0, 1, 40, 1, 1)];
+    if c.tasks.len() == 1 {
+        // a tiny, rare task next to a task that was alone
+        extras.push(ts(60, 0, 1, 70, 1, 1));
+    }
+    for extra in extras {
         let mut h = c.clone();
         if c.ana.is_fp() {
             h.tasks.insert(0, extra);
@@ -146,6 +151,25 @@ pub fn uni_bases(quick: bool) -> Vec<UniCase> {
                     }
                 }
             }
+        }
+    }
+    // a task on its own (no interfering task at all): "one more interfering task" then is the
+    // step from zero to one, where an implementation may switch between code paths
+    for t in [2u64, 3, 4, 5, 7] {
+        for j in [0u64, 1, 2, 3, 8] {
+            for c in [1u64, 2, 3] {
+                for ana in ALL_ANA {
+                    let bbs: Vec<u64> = if ana.is_fp() && ana != Ana::FpP { vec![0, 2] } else { vec![0] };
+                    for bb in bbs {
+                        v.push(UniCase { ana, tasks: vec![ts(t, j, c, 7, 1, 1)], tua: 0, blocking: bb, limit: LIMIT });
+                    }
+                }
+            }
+        }
+    }
+    for ana in ALL_ANA {
+        for a in [ArrSpec::ExtCurve { dmin: vec![1, 3, 7] }, ArrSpec::Curve { dmin: vec![0, 4] }, ArrSpec::ExtCurve { dmin: vec![2, 5] }] {
+            v.push(UniCase { ana, tasks: vec![TaskSpec { arr: a, cost: CostSpec::Scalar(2), deadline: 9, last_seg: 1, max_seg: 1 }], tua: 0, blocking: 0, limit: LIMIT });
         }
     }
     // curve-based arrivals on a few systems
